@@ -532,6 +532,12 @@ mod amqp_url {
     }
 
     fn populate_host_and_port(url: &mut Url) -> Result<Scheme> {
+        // the scheme first: a URL of another scheme may not even be able to carry a host
+        // ("mailto:a@b"), and the fitting complaint is about its scheme, not its host
+        match url.scheme() {
+            "amqp" | "amqps" => {}
+            _ => return InvalidUrlSchemeSnafu { url: url.clone() }.fail(),
+        }
         if !url.has_host() || url.host_str() == Some("") {
             url.set_host(Some("localhost")).context(UrlParseSnafu)?;
         }
